@@ -14,32 +14,36 @@ Singles(s) ==
   /\ \A m \in MutsOf(s, Thorough) : PrintT(<<"CASE", ToJson(CaseOf(s, <<m>>))>>)
   /\ (s.name = "t_empty" => \A t \in Strs3 : PrintT(<<"CASE", ToJson(StrCase(s, t))>>))
 
-(* pairs of distinct core mutations, the first one at the smaller (or equal) offset.   *)
-(* All pairs would be quadratic in the size of the seed; emitted are the pairs that can *)
-(* interact: edits at most NearBy(s) bytes apart, any two SetValue mutations (image     *)
-(* attributes multiply), and SetValue with anything inside the Pixel Data element.      *)
-NearBy(s) == IF s.kind = "text" THEN 4 ELSE 32
-Coupled(s, x, y, ps) ==
-  \/ y.e.at - x.e.at <= NearBy(s)
-  \/ (x.m.m = "SetValue" /\ y.m.m = "SetValue")
-  \/ (x.m.m = "SetValue" /\ y.e.at >= ps /\ ps < s.n)
-PairCase(s, x, y) ==
-  LET es == <<x.e, y.e>>
-      small == s.n <= 64 /\ NoGarbage(es) /\ \A i \in 1..2 : es[i].rep * Len(es[i].ins) <= 64
-  IN IF small THEN [seed |-> s.name, muts |-> <<x.m, y.m>>, edits |-> es, bytes |-> ApplyAll(s.bytes, es)]
-     ELSE [seed |-> s.name, muts |-> <<x.m, y.m>>, edits |-> es]
+(* Pairs of core mutations (thorough).  All pairs would be quadratic in the size of   *)
+(* the seed; emitted are the pairs that can interact: mutations anchored at two fields *)
+(* at most Window(s) positions apart in the field sequence (same field included), any  *)
+(* two SetValue mutations (image attributes multiply), and SetValue with any mutation  *)
+(* inside the Pixel Data element.  The core mutations anchored at a field are built    *)
+(* directly (CoreAt) so that the enumeration is linear in the number of pairs.         *)
+Window(s) == IF s.kind = "text" THEN 4 ELSE 8
+StartKinds == {"tag", "item_tag", "delim", "item_type", "pdv_len"}
+CoreAt(s, i) ==
+  LET f == s.fields[i] IN
+  (IF f.k \in LenKinds THEN {Mut("SetLength", i, 0, c) : c \in {d \in CoreLen \cap ClassesOf(f) : ClassApplies(f, d)}} ELSE {})
+  \cup (IF f.k \in IntKinds \/ IsUSValue(f) THEN {Mut("SetValue", i, 0, c) : c \in CoreVal} ELSE {})
+  \cup (IF f.k = "vr" THEN {Mut("SwapVR", i, 0, c) : c \in CoreVR} ELSE {})
+  \cup (IF f.k = "delim" THEN {Mut("DropDelimiter", i, 0, "")} ELSE {})
+  \cup (IF f.k \in Pseudo \cup {"ch", "punct"} THEN {Mut("DropField", i, 0, ""), Mut("DuplicateField", i, 0, "")} ELSE {})
+  \cup (IF IsText(s) THEN {Mut("SetChar", i, 0, c) : c \in CoreSym} \cup {Mut("InsertChar", 0, f.o, c) : c \in CoreSym} ELSE {})
+  \cup (IF f.k \in StartKinds THEN {Mut("Truncate", 0, f.o, "")} ELSE {})
+  \cup (IF f.k \in StartKinds /\ IsDicom(s) THEN {Mut("StrayDelimiter", 0, f.o, c) : c \in {"item", "seq_delim"}} ELSE {})
+
+EmitPair(s, m1, m2) == m1 # m2 => PrintT(<<"CASE", ToJson(CaseOf(s, <<m1, m2>>))>>)
 PairsOf(s) ==
-  LET CE   == {[m |-> m, e |-> EditOf(s, m)] : m \in MutsCore(s)}   \* every edit is computed once
-      ps   == PixStart(s)
-      Ats  == {x.e.at : x \in CE}
-      ByAt == [a \in Ats |-> {x \in CE : x.e.at = a}]                \* index by offset
-      SV   == {x \in CE : x.m.m = "SetValue"}
-      Pix  == IF ps < s.n THEN {x \in CE : x.e.at >= ps} ELSE {}
-      Cand(x) == UNION {ByAt[a] : a \in (x.e.at .. x.e.at + NearBy(s)) \cap Ats}
-                 \cup (IF x.m.m = "SetValue" THEN SV \cup Pix ELSE {})
-  IN \A x \in CE : \A y \in Cand(x) :
-       (x.m # y.m /\ (x.e.at < y.e.at \/ (x.e.at = y.e.at /\ x.m.m # y.m.m)) /\ Coupled(s, x, y, ps))
-          => PrintT(<<"CASE", ToJson(PairCase(s, x, y))>>)
+  LET n  == Len(s.fields)
+      ps == PixStart(s)
+      SV == {i \in 1..n : s.fields[i].k \in IntKinds \/ IsUSValue(s.fields[i])}
+      PX == IF ps < s.n THEN {j \in 1..n : s.fields[j].o >= ps} ELSE {}
+  IN /\ \A i \in 1..n : \A j \in i..Min(n, i + Window(s)) :
+          \A m1 \in CoreAt(s, i) : \A m2 \in CoreAt(s, j) : EmitPair(s, m1, m2)
+     /\ \A i \in SV : \A j \in (SV \cup PX) :
+          (j > i + Window(s) \/ j < i) =>
+             \A m1 \in {m \in CoreAt(s, i) : m.m = "SetValue"} : \A m2 \in CoreAt(s, j) : EmitPair(s, m1, m2)
 
 VARIABLE i
 Init == i = 1
